@@ -186,18 +186,22 @@ impl Man {
     }
 
     fn _render_title(&self, roff: &mut Roff) {
-        roff.control("TH", self.title_args());
+        let title_args = self.title_args();
+        roff.control("TH", title_args.iter().map(|arg| arg.as_str()));
     }
 
     // Turn metadata into arguments for a .TH macro.
-    fn title_args(&self) -> Vec<&str> {
-        vec![
+    fn title_args(&self) -> Vec<String> {
+        [
             &self.title,
             &self.section,
             &self.date,
             &self.source,
             &self.manual,
         ]
+        .into_iter()
+        .map(|arg| control_arg(arg))
+        .collect()
     }
 
     /// Render the NAME section into the writer.
@@ -274,7 +278,7 @@ impl Man {
                 .into_iter()
                 .partition(|&a| a.get_help_heading() == Some(heading));
 
-            roff.control("SH", [heading.to_uppercase().as_str()]);
+            roff.control("SH", [control_arg(&heading.to_uppercase()).as_str()]);
             render::options(roff, &args);
         }
     }
@@ -287,8 +291,8 @@ impl Man {
     }
 
     fn _render_subcommands_section(&self, roff: &mut Roff) {
-        let heading = subcommand_heading(&self.cmd);
-        roff.control("SH", [heading]);
+        let heading = control_arg(subcommand_heading(&self.cmd));
+        roff.control("SH", [heading.as_str()]);
         render::subcommands(roff, &self.cmd, &self.section);
     }
 
@@ -334,6 +338,12 @@ impl Man {
 }
 
 // Does the application have a version?
+// The arguments of a roff request must stay on the request's line: a line break inside
+// user-supplied text (a heading, the version, ...) would start a line that is read as a request
+fn control_arg(text: &str) -> String {
+    text.replace(['\n', '\r'], " ")
+}
+
 fn app_has_version(cmd: &clap::Command) -> bool {
     cmd.get_version()
         .or_else(|| cmd.get_long_version())
